@@ -14,45 +14,45 @@ package main
   (props C07)
   (use draw)
   (modifies rnd)
-  (ensures key-is-fresh-draw (=> (= err nil)
-      (and (not (= (. w aesgcm) nil)) (= (aeadkey (. w aesgcm)) (draw (old rnd) 16)) (= rnd (+ (old rnd) 1)))))
-  (ensures lifetime (= (. w lifetime) lifetime)))
+  (ensures key-is-fresh-draw (=> (= $r1 nil)
+      (and (not (= (. $r0 aesgcm) nil)) (= (aeadkey (. $r0 aesgcm)) (draw (old rnd) 16)) (= rnd (+ (old rnd) 1)))))
+  (ensures lifetime (= (. $r0 lifetime) lifetime)))
 
 (func "(*main.webSessionFactory).sealToken"
   (props C07 C06)
   (use draw aead)
   (requires has-cipher (not (= (. w aesgcm) nil)))
   (modifies rnd issued)
-  (ensures nonce-is-fresh-draw (=> (= status 200)
-      (and (= (content nonce) (draw (old rnd) 12)) (= rnd (+ (old rnd) 1)))))
-  (ensures sealed (=> (= status 200)
-      (and (= (content enctoken) (sealf (aeadkey (. w aesgcm)) (content nonce) token))
+  (ensures nonce-is-fresh-draw (=> (= $r0 200)
+      (and (= (content $r2) (draw (old rnd) 12)) (= rnd (+ (old rnd) 1)))))
+  (ensures sealed (=> (= $r0 200)
+      (and (= (content $r3) (sealf (aeadkey (. w aesgcm)) (content $r2) token))
            (= issued (store (old issued) (aeadkey (. w aesgcm))
-                (store (select (old issued) (aeadkey (. w aesgcm))) (content nonce)
-                  (store (select (select (old issued) (aeadkey (. w aesgcm))) (content nonce)) (content enctoken) true)))))))
-  (ensures failure-issues-nothing (=> (not (= status 200)) (= issued (old issued)))))
+                (store (select (old issued) (aeadkey (. w aesgcm))) (content $r2)
+                  (store (select (select (old issued) (aeadkey (. w aesgcm))) (content $r2)) (content $r3) true)))))))
+  (ensures failure-issues-nothing (=> (not (= $r0 200)) (= issued (old issued)))))
 
 (func "(*main.webSessionFactory).openToken"
   (props C07 C06)
   (use aead)
   (requires has-cipher (not (= (. w aesgcm) nil)))
-  (ensures only-issued (=> (= status 200)
+  (ensures only-issued (=> (= $r0 200)
       (and (select (select (select issued (aeadkey (. w aesgcm))) (content nonce)) (content enctoken))
-           (= token (openf (aeadkey (. w aesgcm)) (content nonce) (content enctoken))))))
-  (ensures other-status (or (= status 200) (= status 401))))
+           (= $r2 (openf (aeadkey (. w aesgcm)) (content nonce) (content enctoken))))))
+  (ensures other-status (or (= $r0 200) (= $r0 401))))
 
 (func "(*main.webSessionFactory).splitCheckToken"
   (props C07 C06)
   (use decimals itoa)
   (modifies now)
-  (ensures accepted-shape (=> (= status 200)
+  (ensures accepted-shape (=> (= $r0 200)
       (exists ((d String))
-        (and (= token (str.++ username ":" (boolstr isAdmin) ":" d))
-             (not (str.contains username ":")) (isdec64 d)
+        (and (= token (str.++ $r2 ":" (boolstr $r3) ":" d))
+             (not (str.contains $r2 ":")) (isdec64 d)
              (<= 0 (- now (* (atoi d) 1000000000)))
              (<= (- now (* (atoi d) 1000000000)) (. w lifetime))))))
-  (ensures statuses (or (= status 200) (= status 400) (= status 401)))
-  (ensures rejected-zero (=> (not (= status 200)) (or (= status 400) (= status 401))))
+  (ensures statuses (or (= $r0 200) (= $r0 400) (= $r0 401)))
+  (ensures rejected-zero (=> (not (= $r0 200)) (or (= $r0 400) (= $r0 401))))
   (ensures clock (>= now (old now))))
 
 ; every ciphertext marked as issued under a key is a Seal output for that key and nonce
@@ -72,12 +72,12 @@ package main
   (requires has-cipher (not (= (. w aesgcm) nil)))
   (requires issued-wf (issuedwf issued))
   (modifies rnd issued now)
-  (ensures issued-token (=> (= status 200)
+  (ensures issued-token (=> (= $r0 200)
       (let ((k (aeadkey (. w aesgcm))) (n (draw (old rnd) 12)) (pt (tokentext username isAdmin (div now 1000000000))))
         (and (= rnd (+ (old rnd) 1))
              (= issued (store (old issued) k (store (select (old issued) k) n (store (select (select (old issued) k) n) (sealf k n pt) true))))
-             (= session (str.++ (b64enc (global "encoding/base64.URLEncoding") n) ":" (b64enc (global "encoding/base64.URLEncoding") (sealf k n pt))))))))
-  (ensures failure-issues-nothing (=> (not (= status 200)) (= issued (old issued))))
+             (= $r2 (str.++ (b64enc (global "encoding/base64.URLEncoding") n) ":" (b64enc (global "encoding/base64.URLEncoding") (sealf k n pt))))))))
+  (ensures failure-issues-nothing (=> (not (= $r0 200)) (= issued (old issued))))
   (ensures issued-wf (issuedwf issued))
   (ensures clock (>= now (old now))))
 
@@ -86,17 +86,17 @@ package main
   (use aead b64 decimals itoa)
   (requires has-cipher (not (= (. w aesgcm) nil)))
   (modifies now)
-  (ensures accepted-only-issued (=> (= status 200)
+  (ensures accepted-only-issued (=> (= $r0 200)
       (exists ((x String) (y String) (d String))
         (let ((k (aeadkey (. w aesgcm))) (n (b64dec (global "encoding/base64.URLEncoding") x)) (c (b64dec (global "encoding/base64.URLEncoding") y)))
           (and (= session (str.++ x ":" y)) (not (str.contains x ":"))
                (b64ok (global "encoding/base64.URLEncoding") x) (b64ok (global "encoding/base64.URLEncoding") y)
                (select (select (select issued k) n) c)
-               (= (openf k n c) (str.++ username ":" (boolstr isAdmin) ":" d))
-               (not (str.contains username ":")) (isdec64 d)
+               (= (openf k n c) (str.++ $r2 ":" (boolstr $r3) ":" d))
+               (not (str.contains $r2 ":")) (isdec64 d)
                (<= 0 (- now (* (atoi d) 1000000000)))
                (<= (- now (* (atoi d) 1000000000)) (. w lifetime)))))))
-  (ensures statuses (or (= status 200) (= status 400) (= status 401)))
+  (ensures statuses (or (= $r0 200) (= $r0 400) (= $r0 401)))
   (ensures clock (>= now (old now))))
 */
 
@@ -349,14 +349,14 @@ package main
                                                      (not (= (. s upgradeChan) nil)) (= $ch (. s upgradeChan))))
     (requires same-credentials (and (= (. $v username) username) (= (. $v password) password) (= (. $v response) nil))))
   (ensures result-is-the-stores (and
-      (= (. result ok) (callresult "(*store.Dir).Authenticate" 0 0))
-      (= (. result isAdmin) (callresult "(*store.Dir).Authenticate" 0 1))
-      (= (. result upgradeable) (callresult "(*store.Dir).Authenticate" 0 2))
-      (= (. result lastChanged) (callresult "(*store.Dir).Authenticate" 0 3))
-      (= (. result err) (callresult "(*store.Dir).Authenticate" 0 4))))
+      (= (. $r0 ok) (callresult "(*store.Dir).Authenticate" 0 0))
+      (= (. $r0 isAdmin) (callresult "(*store.Dir).Authenticate" 0 1))
+      (= (. $r0 upgradeable) (callresult "(*store.Dir).Authenticate" 0 2))
+      (= (. $r0 lastChanged) (callresult "(*store.Dir).Authenticate" 0 3))
+      (= (. $r0 err) (callresult "(*store.Dir).Authenticate" 0 4))))
   (ensures upgrades-off-sends-nothing (=> (= (. s upgradeChan) nil) (= sent.upgradeChan (old sent.upgradeChan))))
-  (ensures failed-login-sends-nothing (=> (not (. result ok)) (= sent.upgradeChan (old sent.upgradeChan))))
-  (ensures error-is-denial (props C04 C06) (=> (not (= (. result err) nil)) (not (. result ok)))))
+  (ensures failed-login-sends-nothing (=> (not (. $r0 ok)) (= sent.upgradeChan (old sent.upgradeChan))))
+  (ensures error-is-denial (props C04 C06) (=> (not (= (. $r0 err) nil)) (not (. $r0 ok)))))
 
 (func "(*main.store).add"
   (props C17 C19)
@@ -368,11 +368,11 @@ package main
   (send "Notify" 0
     (requires only-after-success (and (called "(*store.Dir).AddUser" 0) (= (callresult "(*store.Dir).AddUser" 0 0) nil))))
   (ensures refused-means-error-and-no-write (=> (not (policyok (. s policy) password username))
-      (and (not (= (. result err) nil)) (not (called "(*store.Dir).AddUser" 0)))))
+      (and (not (= (. $r0 err) nil)) (not (called "(*store.Dir).AddUser" 0)))))
   (ensures accepted-is-not-refused (=> (policyok (. s policy) password username)
-      (and (called "(*store.Dir).AddUser" 0) (= (. result err) (callresult "(*store.Dir).AddUser" 0 0)))))
+      (and (called "(*store.Dir).AddUser" 0) (= (. $r0 err) (callresult "(*store.Dir).AddUser" 0 0)))))
   (ensures notified-iff-success (= sent.Notify (+ (old sent.Notify)
-      (ite (and (called "(*store.Dir).AddUser" 0) (= (. result err) nil)) 1 0))))
+      (ite (and (called "(*store.Dir).AddUser" 0) (= (. $r0 err) nil)) 1 0))))
   (ensures every-change-is-notified (props C19) (= (- agent.changes sent.Notify) (old (- agent.changes sent.Notify)))))
 
 (func "(*main.store).update"
@@ -385,11 +385,11 @@ package main
   (send "Notify" 0
     (requires only-after-success (and (called "(*store.Dir).UpdateUser" 0) (= (callresult "(*store.Dir).UpdateUser" 0 0) nil))))
   (ensures refused-means-error-and-no-write (=> (not (policyok (. s policy) password username))
-      (and (not (= (. result err) nil)) (not (called "(*store.Dir).UpdateUser" 0)))))
+      (and (not (= (. $r0 err) nil)) (not (called "(*store.Dir).UpdateUser" 0)))))
   (ensures accepted-is-not-refused (=> (policyok (. s policy) password username)
-      (and (called "(*store.Dir).UpdateUser" 0) (= (. result err) (callresult "(*store.Dir).UpdateUser" 0 0)))))
+      (and (called "(*store.Dir).UpdateUser" 0) (= (. $r0 err) (callresult "(*store.Dir).UpdateUser" 0 0)))))
   (ensures notified-iff-success (= sent.Notify (+ (old sent.Notify)
-      (ite (and (called "(*store.Dir).UpdateUser" 0) (= (. result err) nil)) 1 0))))
+      (ite (and (called "(*store.Dir).UpdateUser" 0) (= (. $r0 err) nil)) 1 0))))
   (ensures every-change-is-notified (props C19) (= (- agent.changes sent.Notify) (old (- agent.changes sent.Notify)))))
 
 (func "(*main.store).init"
@@ -400,9 +400,9 @@ package main
     (requires policy-accepted (policyok (. s policy) $2 $1))
     (requires arguments (and (= $0 (. s dir)) (= $1 username) (= $2 password))))
   (ensures refused-means-error-and-no-write (=> (not (policyok (. s policy) password username))
-      (and (not (= (. result err) nil)) (not (called "(*store.Dir).Init" 0)))))
+      (and (not (= (. $r0 err) nil)) (not (called "(*store.Dir).Init" 0)))))
   (ensures accepted-is-not-refused (=> (policyok (. s policy) password username)
-      (and (called "(*store.Dir).Init" 0) (= (. result err) (callresult "(*store.Dir).Init" 0 0)))))
+      (and (called "(*store.Dir).Init" 0) (= (. $r0 err) (callresult "(*store.Dir).Init" 0 0)))))
   (ensures not-a-counted-change (props C19) (= agent.changes (old agent.changes))))
 
 (func "(*main.store).remove"
@@ -420,8 +420,8 @@ package main
   (callsite "(*store.Dir).SetAdmin" 0 (requires arguments (and (= $0 (. s dir)) (= $1 username) (= $2 isAdmin))))
   (send "Notify" 0
     (requires only-after-success (and (called "(*store.Dir).SetAdmin" 0) (= (callresult "(*store.Dir).SetAdmin" 0 0) nil))))
-  (ensures result-is-the-stores (= (. result err) (callresult "(*store.Dir).SetAdmin" 0 0)))
-  (ensures notified-iff-success (= sent.Notify (+ (old sent.Notify) (ite (= (. result err) nil) 1 0))))
+  (ensures result-is-the-stores (= (. $r0 err) (callresult "(*store.Dir).SetAdmin" 0 0)))
+  (ensures notified-iff-success (= sent.Notify (+ (old sent.Notify) (ite (= (. $r0 err) nil) 1 0))))
   (ensures every-change-is-notified (props C19) (= (- agent.changes sent.Notify) (old (- agent.changes sent.Notify)))))
 */
 
@@ -475,15 +475,15 @@ package main
   (requires has-dir (not (= (. s dir) nil)))
   (modifies io.faults br.pos rd.pos)
   (callsite "(*store.Dir).Check" 0 (requires the-served-dir (= $0 (. s dir))))
-  (ensures result-is-the-stores (= (. result err) (callresult "(*store.Dir).Check" 0 0))))
+  (ensures result-is-the-stores (= (. $r0 err) (callresult "(*store.Dir).Check" 0 0))))
 (func "(*main.store).list" (props C06)
   (requires has-dir (not (= (. s dir) nil)))
   (modifies io.faults br.pos rd.pos)
-  (ensures result-is-the-stores (and (= (. result list) (callresult "(*store.Dir).List" 0 0)) (= (. result err) (callresult "(*store.Dir).List" 0 1)))))
+  (ensures result-is-the-stores (and (= (. $r0 list) (callresult "(*store.Dir).List" 0 0)) (= (. $r0 err) (callresult "(*store.Dir).List" 0 1)))))
 (func "(*main.store).listFull" (props C06)
   (requires has-dir (not (= (. s dir) nil)))
   (modifies io.faults br.pos rd.pos)
-  (ensures result-is-the-stores (and (= (. result list) (callresult "(*store.Dir).ListFull" 0 0)) (= (. result err) (callresult "(*store.Dir).ListFull" 0 1)))))
+  (ensures result-is-the-stores (and (= (. $r0 list) (callresult "(*store.Dir).ListFull" 0 0)) (= (. $r0 err) (callresult "(*store.Dir).ListFull" 0 1)))))
 */
 
 /*@
@@ -492,8 +492,8 @@ package main
 (func "main.callback"
   (props C04 C15)
   (callsite "(*main.Store).Authenticate" 0 (requires exact-credentials (and (= $0 store) (= $1 login) (= $2 password))))
-  (ensures accept-iff-store-accepts (= ok (and (callresult "(*main.Store).Authenticate" 0 0) (= (callresult "(*main.Store).Authenticate" 0 3) nil))))
-  (ensures error-is-denial (=> (not (= (callresult "(*main.Store).Authenticate" 0 3) nil)) (and (not ok) (not (= err nil))))))
+  (ensures accept-iff-store-accepts (= $r0 (and (callresult "(*main.Store).Authenticate" 0 0) (= (callresult "(*main.Store).Authenticate" 0 3) nil))))
+  (ensures error-is-denial (=> (not (= (callresult "(*main.Store).Authenticate" 0 3) nil)) (and (not $r0) (not (= $r2 nil))))))
 
 (func "main.runSaslAuthSocket$1"
   (props C04)
@@ -568,41 +568,41 @@ package main
 
 (func "(main.zxcvbnPolicy).Check" (props C17)
   (requires well-formed (zwf (. z condition) (. z threshold)))
-  (ensures verdict (and (= err nil)
-      (= result (zcond (. z condition) (zx_score password username "whawty") (zx_entropy password username "whawty")
+  (ensures verdict (and (= $r1 nil)
+      (= $r0 (zcond (. z condition) (zx_score password username "whawty") (zx_entropy password username "whawty")
                        (zx_time password username "whawty") (. z threshold))))))
 
 (func "(main.nullPolicy).Check" (props C17)
-  (ensures accepts-everything (and result (= err nil))))
+  (ensures accepts-everything (and $r0 (= $r1 nil))))
 
 (func "main.newZXCVBNPolicy" (props C17)
   (use decimals)
-  (ensures accepted-grammar (= (= err nil)
+  (ensures accepted-grammar (= (= $r1 nil)
       (and (= (fields_n condition) 3) (= (fields_at condition 1) ">=") (isudec64 (fields_at condition 2))
            (or (and (= (fields_at condition 0) "score") (<= (uatoi (fields_at condition 2)) 4))
                (= (fields_at condition 0) "entropy") (= (fields_at condition 0) "time")))))
-  (ensures built (=> (= err nil)
-      (and (= (. p threshold) (uatoi (fields_at condition 2)))
-           (= (. p condition) (ite (= (fields_at condition 0) "score") zfScore (ite (= (fields_at condition 0) "entropy") zfEntropy zfTime)))
-           (zwf (. p condition) (. p threshold))))))
+  (ensures built (=> (= $r1 nil)
+      (and (= (. $r0 threshold) (uatoi (fields_at condition 2)))
+           (= (. $r0 condition) (ite (= (fields_at condition 0) "score") zfScore (ite (= (fields_at condition 0) "entropy") zfEntropy zfTime)))
+           (zwf (. $r0 condition) (. $r0 threshold))))))
 
 (func "main.NewPasswordPolicy" (props C17)
   (use policyok-def dyntype)
-  (ensures no-policy (=> (= policyType "") (and (= err nil) (= (dyntype p) tyNullPolicy))))
+  (ensures no-policy (=> (= policyType "") (and (= $r1 nil) (= (dyntype $r0) tyNullPolicy))))
   (ensures zxcvbn (=> (= policyType "zxcvbn")
-      (and (= err (callresult "main.newZXCVBNPolicy" 0 1))
-           (=> (= err nil) (and (= (dyntype p) tyZxcvbnPolicy)
-                                (zwf (|box main.zxcvbnPolicy.condition| p) (|box main.zxcvbnPolicy.threshold| p)))))))
-  (ensures unknown-type-is-an-error (=> (and (not (= policyType "")) (not (= policyType "zxcvbn"))) (not (= err nil)))))
+      (and (= $r1 (callresult "main.newZXCVBNPolicy" 0 1))
+           (=> (= $r1 nil) (and (= (dyntype $r0) tyZxcvbnPolicy)
+                                (zwf (|box main.zxcvbnPolicy.condition| $r0) (|box main.zxcvbnPolicy.threshold| $r0)))))))
+  (ensures unknown-type-is-an-error (=> (and (not (= policyType "")) (not (= policyType "zxcvbn"))) (not (= $r1 nil)))))
 
 ; ============================ agent construction (C12 C16 C17 C18) ==================================
 
 (func "main.NewHooksCaller" (props C19) (noframe)
   (callsite "(*main.HooksCaller).run" 0 (requires started-fresh (and (= (. $0 pending) 0) (= (. $0 dir) hooksDir) (= (. $0 store) storeDir))))
-  (ensures returns-object (=> (= err nil) (not (isnil h)))))
+  (ensures returns-object (=> (= $r1 nil) (not (isnil $r0)))))
 ; the master URL is parsed once at start-up; the upgrader goroutines rely on it being parseable (http.NewRequest's error is ignored there)
 (func "main.runRemoteUpgrader" (props C12) (noframe)
-  (ensures only-http-urls-start-an-upgrader (=> (= err nil) (urlok remote))))
+  (ensures only-http-urls-start-an-upgrader (=> (= $r1 nil) (urlok remote))))
 (func "main.remoteHTTPUpgrader" (props C12) (noframe)
   (requires master-url-parses (urlok remote))
   (loop 0 (invariant master-url-parses (urlok remote))))
@@ -619,16 +619,16 @@ package main
   (callsite "main.NewPasswordPolicy" 0 (requires configured-policy (and (= $0 policyType) (= $1 policyCondition))))
   (callsite "store.NewDirFromConfig" 0 (requires configured-store (= $0 configfile)))
   (ensures policy-error-stops-the-agent (=> (and (called "main.NewPasswordPolicy" 0) (not (= (callresult "main.NewPasswordPolicy" 0 1) nil)))
-                                            (not (= err nil))))
-  (ensures config-error-stops-the-agent (=> (not (= (callresult "store.NewDirFromConfig" 0 1) nil)) (not (= err nil))))
-  (ensures built-object (=> (= err nil)
-      (and (not (isnil s)) (not (= (. s dir) nil)) (not (= (. s hooks) nil)) (= (. s configfile) configfile))))
-  (ensures built (=> (= err nil)
-      (and (= (. s dir) (callresult "store.NewDirFromConfig" 0 0))
-           (= (. s policy) (callresult "main.NewPasswordPolicy" 0 0))
-           (= (. s configfile) configfile))))
-  (ensures upgrades-off (=> (and (= err nil) (= doUpgrades "")) (= (. s upgradeChan) nil)))
-  (ensures upgrades-local (=> (and (= err nil) (= doUpgrades "local")) (= (. s upgradeChan) (. s updateChan)))))
+                                            (not (= $r1 nil))))
+  (ensures config-error-stops-the-agent (=> (not (= (callresult "store.NewDirFromConfig" 0 1) nil)) (not (= $r1 nil))))
+  (ensures built-object (=> (= $r1 nil)
+      (and (not (isnil $r0)) (not (= (. $r0 dir) nil)) (not (= (. $r0 hooks) nil)) (= (. $r0 configfile) configfile))))
+  (ensures built (=> (= $r1 nil)
+      (and (= (. $r0 dir) (callresult "store.NewDirFromConfig" 0 0))
+           (= (. $r0 policy) (callresult "main.NewPasswordPolicy" 0 0))
+           (= (. $r0 configfile) configfile))))
+  (ensures upgrades-off (=> (and (= $r1 nil) (= doUpgrades "")) (= (. $r0 upgradeChan) nil)))
+  (ensures upgrades-local (=> (and (= $r1 nil) (= doUpgrades "local")) (= (. $r0 upgradeChan) (. $r0 updateChan)))))
 
 (func "main.openAndCheck"
   (props C16 C04)
